@@ -149,7 +149,12 @@ def entity_positions(chk):
         for _ in range(chk.n(300, 15000)):
             if fmt == "ftl":
                 from harness.props.c01 import FTL_TOKENS
-                text = "".join(rng.choice(FTL_TOKENS) for _ in range(rng.randint(0, 12)))
+                if rng.random() < 0.5:
+                    text = "".join(rng.choice(FTL_TOKENS) for _ in range(rng.randint(0, 12)))
+                else:  # structured: messages and terms with and without a value, attributes, comments
+                    text = "".join(rng.choice(["k = v\n", "k2 =\n    .a = b\n", "# c\nk3 =\n    .t = x\n    .u = y\n",
+                                               "-t = v\n    .a = b\n", "\n", "junk!\n", "## g\n\n", "k4 = { $n ->\n  [one] x\n *[other] y\n }\n"])
+                                   for _ in range(rng.randint(1, 6)))
                 from compare_locales import parser
                 p = parser.getParser("f.ftl")
                 p.readUnicode(text)
@@ -170,6 +175,9 @@ def entity_positions(chk):
                     checks.append(("value", list(e.value_position()), vs[0]))
                     checks.append(("value-end", list(e.value_position(-1)) if fmt != "ftl"
                                    else expected_linecol(text, vs[1]), vs[1]))
+                if fmt == "ftl" and hasattr(e, "value_position") and vs is None and getattr(e, "key_span", None):
+                    # no value: value_position() without offset is the end of the id
+                    checks.append(("value-of-valueless", list(e.value_position()), e.key_span[1]))
                 for what, got, off in checks:
                     if got != expected_linecol(text, off):
                         chk.fail("entry-position", {"format": fmt, "text": text, "span": list(e.span),
